@@ -18,6 +18,10 @@ Definition C07_full : Prop :=
   /\ (forall (t : tstate) (o : top) (t' : tstate), WF t -> fits t = true -> op_ok o -> theight t = 0 ->
         t_step t o = Some t' -> 0 < theight t' -> 1 <= twidth t').
 
+Theorem C07_structure_after_every_history : C07_full.
+Proof. exact (conj xml_full_history first_row_model). Qed.
+Print Assumptions C07_structure_after_every_history.
+
 Theorem C07_inv : forall (t : tstate) (o : top), WF t -> fits t = true -> op_ok o ->
   exists t', t_step t o = Some t' /\ WF t' /\ fits t' = true /\ XmlOK (render t') = true.
 Proof. exact xmlok_step. Qed.
